@@ -1,5 +1,5 @@
 """C01 - a dependency's body runs exactly once per mage execution."""
-import json, os
+import json, os, shutil
 from vlib import *
 import depslib
 
@@ -19,14 +19,17 @@ def depslib_trusted():
             "Model/DepsReplay.guess is untrusted: acceptance re-runs Model/Deps.run on the guessed schedule"]
 
 
-def contention(ctx, parts=("contend", "generic", "names", "invalid", "custom", "verbose", "wide", "escaped", "ambient"), rounds=None, knob_env=None):
+def contention(ctx, parts=("contend", "generic", "names", "invalid", "custom", "verbose", "wide", "escaped", "ambient", "api"), rounds=None, knob_env=None):
     """C01 under contention: a lost update in the registry only shows when several goroutines miss
     the same fresh key at the same instant (oracle only; the theorem side is C01_at_most_once)."""
     if knob_env is None:
         # MAGEFILE_* variables in the source that no model knows (lib/depslib.discover_knobs): the probes run again with each set
         for k in depslib.discover_knobs():
-            for v in ("1", "true"):
-                contention(ctx, parts=tuple(x for x in parts if x not in ("contend", "long", "generic")), rounds=100, knob_env={k: v})
+            for v in ("1", "true", "@FILE", "1s"):
+                kv = depslib.knob_value(v)
+                contention(ctx, parts=tuple(x for x in parts if x not in ("contend", "long", "generic")), rounds=100, knob_env={k: kv})
+                if v == "@FILE":
+                    shutil.rmtree(os.path.dirname(kv), ignore_errors=True)
     if knob_env:
         # every violation of this run says under which environment it was seen
         orig = ctx.violation
@@ -49,11 +52,44 @@ def _contention(ctx, parts, rounds, knob_env):
     env = dict(os.environ, **(knob_env or {}))
     if knob_env:
         spec["environment"] = knob_env
+    late = []
+    if "long" in parts and not knob_env:
+        # LATE requesters, in processes of their own next to the main run: a dependency in flight for 12.5 s (quick; beyond ten-second
+        # heartbeat / progress intervals) or 11.5 minutes (thorough), requested again 1.5 s before it ends, quiet and verbose
+        import subprocess
+        late_ms = 12500 if ctx.quick else 690000
+        for verbose in ("0", "1"):
+            pr = subprocess.Popen([binp], stdin=subprocess.PIPE, stdout=subprocess.PIPE, stderr=subprocess.PIPE, env=dict(env, MAGEFILE_VERBOSE=verbose))
+            pr.stdin.write(json.dumps({"contend": {"late_ms": late_ms}}).encode()); pr.stdin.close()
+            late.append((verbose, late_ms, pr))
     rc, out, err = sh([binp], input=json.dumps(spec).encode(), env=env, timeout=1500)
+    for verbose, late_ms, pr in late:
+        try:
+            o = pr.stdout.read().decode(errors="replace"); e = pr.stderr.read().decode(errors="replace"); lrc = pr.wait(timeout=late_ms / 1000 + 120)
+        except Exception as ex:
+            pr.kill(); o, e, lrc = "", str(ex), -1
+        msg = None
+        try:
+            msg = json.loads(o.strip().splitlines()[-1]).get("late_wait")
+        except Exception:
+            msg = "the late-requester probe ended with status %s: %s" % (lrc, e[-400:])
+        ctx.coverage["late_requester_probe_ms"] = late_ms
+        if msg:
+            ctx.violation({"kind": "oracle", "oracle": "C02/C13", "clauses": [msg + " (MAGEFILE_VERBOSE=%s)" % verbose]},
+                          case={"call": "go mg.Deps(lateDep); after %d ms: mg.Deps(lateDep); mg.SerialDeps(lateDep, next); mg.CtxDeps(ctx, lateDep)" % (late_ms - 1500), "late_ms": late_ms, "MAGEFILE_VERBOSE": verbose})
+    api_start = [l[len("VPAPI-CALLED:"):].strip().split(", ") for l in err.splitlines() if l.startswith("VPAPI-CALLED:")]
     if rc != 0:
-        ctx.violation({"kind": "harness-run-failed", "rc": rc, "stderr": err[-1500:]}, case=spec, found_input=bool(knob_env))
+        # (exported functions outside the known API were called first - harness/apiprobe, tools/notes/APIprobe.md: that call sequence is the input)
+        ctx.violation(dict({"kind": "harness-run-failed", "rc": rc, "stderr": err[-1500:]}, **({"api_called_first": api_start[0]} if api_start else {})),
+                      case=dict(spec, **({"api_called_first": api_start[0]} if api_start else {})), found_input=bool(knob_env) or bool(api_start))
         return
     r = json.loads(out.strip().splitlines()[-1])
+    ctx.coverage["api_probe"] = {"called": r.get("api_called"), "not_callable_mechanically": r.get("api_skipped"), "violations": len(r.get("api") or [])}
+    if "api" in parts and r.get("api"):
+        called = r.get("api_called") or []
+        ctx.violation({"kind": "oracle", "oracle": "C01/C03/C13", "clauses": ["exported functions the models do not know (%s) were called before and between requests for the same dependencies; that must change nothing the engine does for a dependency, but: %s"
+                       % (", ".join(called) or "none in this tree - the plain re-request scenario", "; ".join(r["api"][:4]))]},
+                      case={"call": "harness/depsrun/contend.go apiProbe (the calls: api_calls_gen.go generated by harness/apiprobe for this tree)", "api_called": called, "bad": r["api"][:20]})
     ctx.coverage["contention_keys"] = r["keys"]
     ctx.coverage["contention_goroutines_per_key"] = gor
     ctx.coverage["contention_not_once"] = len(r["not_once"])
